@@ -9,6 +9,35 @@ CLAIMED = {
         "exactly while a full codon remains, reads i,i+1,i+2 in bounds and rejects exactly len<3+frame. Exhaustive over all 3x65+16+19+16 table rows. "
         "NOT decided: the ambiguity loop as executed, TranslateByReference, CodonAlign data flow, 3-frame naming. Level 'other': necessary structural conditions, not the behaviour.",
         "DESIGN.md §3 C05"),
+    "C08": (
+        "goroutine-protocol analysis on go/ssa: must-call-before-return dataflow (WaitGroup.Done, close), lockset on captured variables, call-graph reachability, error-flow and accumulation-shape rules",
+        "Decides statically the concurrency clauses of C08 on distance/dna.DistMatrix for every schedule and thread count: every worker executes wg.Done on all paths and the producer closes the work channel on all "
+        "paths (the call returns), every scalar shared between goroutines is accessed under one common mutex or by a single thread (parent accesses between spawn and join included; helper closures called from goroutines "
+        "are attributed to the calling threads), worker-side accumulations are exact and commutative (guarded maximum; collected pairs consumed by a loop that only writes per-item cells), no random draw is reachable from the "
+        "goroutines, and the error of every model call is stored to the function's error result. NOT decided: invariance under column permutation/replication/reverse-complement and linear scaling (relational, value level); "
+        "disjointness of matrix-cell writes is assumed from the producer enumerating each pair once.",
+        "DESIGN.md §3 C08"),
+    "C11": (
+        "repository-wide determinism lint on AST+SSA: map-range body classifier, who-may-call table for time/seed sources, call-graph reachability of RNG from goroutines, fan-in consumer classification",
+        "Decides statically, over all 23 packages including cmd/, the reproducibility clauses visible in the shape of the code: every range over a map is order-insensitive or collect-then-sort (sensitive sites are violations "
+        "unless a reasoned exception), wall-clock time and re-seeding occur only at the single seeding point, no draw from the global random stream is reachable from a goroutine, and results of several concurrent senders are "
+        "not consumed in arrival order by an order-preserving consumer. Three recorded findings (tar ModTime, phase/phasent -t>1 arrival order). NOT decided: byte identity of actual runs, format-chain idempotence, "
+        "equality of distboot with bootstrap+compute distance.",
+        "DESIGN.md §3 C11"),
+    "C16": (
+        "goroutine-protocol analysis (must-call dataflow, send counting per worker iteration), linear-form comparison of cut positions, write-effect analysis of the inputs",
+        "Decides statically the fan-out protocol, frame-arithmetic and input-immutability clauses of C16: workers defer wg.Done, the result channel is closed exactly once after wg.Wait in a goroutine started on every "
+        "path, the sequence channel is closed after its last send, each completed worker iteration performs exactly one send, no RNG in goroutines; nucleotide cut positions are (phase%3)+3*seqstart / (phase%3)+3*(seqend+1), "
+        "amino-acid cuts seqstart / seqend+1, NtSeq and CodonSeq are cut alike, the NT-mode codon offset is (3-nbgapstart%3)%3; Phase, alignAgainstRefsAA/NT and LongestORF never write memory reachable from their inputs "
+        "(effects engine). NOT decided: longest-ORF optimality, best-frame choice, trimming at a verbatim ORF.",
+        "DESIGN.md §3 C16"),
+    "C19": (
+        "write-effect and ownership analysis: allocation-site abstract interpretation of go/ssa with closed parameter regions, callbacks analysed at the call, positive and negative controls",
+        "Decides statically, for every listed operation and all inputs, that no store/map update/copy/sort/mutating library call can land in memory reachable from the input alignment or sequence set (84 purity obligations: "
+        "statistics, all writers, DistMatrix, MLDist, JC69Dist, NewPwAligner, Phase, LongestORF, SubAlign, SelectSites, Transpose, BuildBootstrap, Clone, ...), and that nothing reachable from the result of Clone, CloneSeqBag, "
+        "(*seq).Clone, SubAlign, SelectSites, Transpose, BuildBootstrap, Unalign, Consensus, Split, RandSubAlign points into the receiver's memory. The engine is checked on every run against controls it must flag "
+        "(mutating callback, shallow copy) and must not flag (deep copy, read-only traversal). NOT decided: external callers holding slices exposed by SequenceChar/IterateChar; library callees are modelled by an effect table.",
+        "DESIGN.md §3 C19"),
 }
 
 NOT_YET = {
